@@ -9,6 +9,7 @@ package main
 import (
 	"fmt"
 	"go/ast"
+	"go/parser"
 	"go/token"
 	"go/types"
 	"os"
@@ -143,6 +144,75 @@ func renameOverlayDir(p *eng.Prog, repo string, fns map[*ssa.Function]bool, dir 
 	return nf, nid, nil
 }
 
+// swapEqOperands rewrites, in the files already written to dir, every `x == y`
+// / `x != y` inside the target functions to `y == x` / `y != x` (a second
+// neutral change: the rules must not depend on operand order).
+func swapEqOperands(dir string, fns map[*ssa.Function]bool) (int, error) {
+	names := map[string]bool{}
+	for fn := range fns {
+		top := eng.TopFunc(fn)
+		if top.Origin() != nil {
+			top = top.Origin()
+		}
+		names[top.Name()] = true
+	}
+	n := 0
+	err := filepath.Walk(dir, func(path string, info os.FileInfo, err error) error {
+		if err != nil || info.IsDir() || !strings.HasSuffix(path, ".go") {
+			return err
+		}
+		src, err := os.ReadFile(path)
+		if err != nil {
+			return err
+		}
+		fset := token.NewFileSet()
+		file, err := parser.ParseFile(fset, path, src, parser.ParseComments)
+		if err != nil {
+			return nil // leave the file as it is; the loader will report real errors
+		}
+		var es []edit
+		for _, d := range file.Decls {
+			fd, ok := d.(*ast.FuncDecl)
+			if !ok || fd.Body == nil || !names[fd.Name.Name] {
+				continue
+			}
+			ast.Inspect(fd.Body, func(nd ast.Node) bool {
+				be, ok := nd.(*ast.BinaryExpr)
+				if !ok || (be.Op != token.EQL && be.Op != token.NEQ) {
+					return true
+				}
+				nested := false
+				for _, side := range []ast.Expr{be.X, be.Y} {
+					ast.Inspect(side, func(m ast.Node) bool {
+						if b2, ok := m.(*ast.BinaryExpr); ok && (b2.Op == token.EQL || b2.Op == token.NEQ) {
+							nested = true
+						}
+						return !nested
+					})
+				}
+				if nested {
+					return true
+				}
+				xs, xe := fset.Position(be.X.Pos()).Offset, fset.Position(be.X.End()).Offset
+				ys, ye := fset.Position(be.Y.Pos()).Offset, fset.Position(be.Y.End()).Offset
+				if xs >= xe || ys >= ye || xe > ys {
+					return true
+				}
+				x, y := string(src[xs:xe]), string(src[ys:ye])
+				es = append(es, edit{xs, ye - xs, y + string(src[xe:ys]) + x})
+				n++
+				return false
+			})
+		}
+		sort.Slice(es, func(i, j int) bool { return es[i].off > es[j].off })
+		for _, e := range es {
+			src = append(src[:e.off], append([]byte(e.s), src[e.off+e.n:]...)...)
+		}
+		return os.WriteFile(path, src, 0o644)
+	})
+	return n, err
+}
+
 // renameTest renames every variable of the functions that carry obligations of
 // the property and requires the rules to stay silent.
 func renameTest(repo, id string, c *eng.Ctx, baseOpen map[string]bool) map[string]any {
@@ -167,6 +237,11 @@ func renameTest(repo, id string, c *eng.Ctx, baseOpen map[string]bool) map[strin
 	defer os.RemoveAll(dir)
 	nf, nid, err := renameOverlayDir(c.P, repo, fns, dir)
 	res["functions_renamed"], res["identifiers_rewritten"] = nf, nid
+	if err == nil {
+		var nsw int
+		nsw, err = swapEqOperands(dir, fns)
+		res["comparisons_swapped"] = nsw
+	}
 	if err != nil {
 		res["outcome"] = "error: " + err.Error()
 		return res
@@ -190,7 +265,7 @@ func renameTest(repo, id string, c *eng.Ctx, baseOpen map[string]bool) map[strin
 	res["false_alarms"] = alarms
 	if len(alarms) == 0 {
 		res["outcome"] = "silent"
-		fmt.Printf("SELFTEST property=%s neutral-rename of %d function(s), %d identifier(s): silent (as required)\n", id, nf, nid)
+		fmt.Printf("SELFTEST property=%s neutral-rename of %d function(s), %d identifier(s): and swap of %v ==/!= comparison(s): silent (as required)\n", id, nf, nid, res["comparisons_swapped"])
 	} else {
 		res["outcome"] = "alarmed"
 		fmt.Printf("SELFTEST property=%s neutral-rename of %d function(s): %d FALSE ALARM(S), first: %s\n", id, nf, len(alarms), alarms[0])
